@@ -394,6 +394,8 @@ pub fn list_members(level: u8) -> Vec<Val> {
         boolean(true),
         map(vec![e("x", st("a"))]),
         null(),
+        st("?a.*"),
+        st("?.*a"),
     ];
     if level >= 1 {
         v.extend(vec![
